@@ -228,6 +228,35 @@ func HarnessE4() {
 	if err != nil {
 		verifAssert(dec == nil, "E4.nil-on-error")
 		checkDecodeError(err, nl+1, text, "E4.err")
+		// the error LOCATES the problem: the line it names is rejected when decoded on its
+		// own, and everything before that line decodes
+		var de DecodeError
+		if errors.As(err, &de) && de.Line >= 0 && de.Line <= nl {
+			ln := verifConcreteInt(de.Line)
+			start, end, cur := 0, len(text), 0
+			for i := range text {
+				if text[i] == '\n' {
+					cur++
+					if cur == ln {
+						start = i + 1
+					}
+					if cur == ln+1 {
+						end = i
+						break
+					}
+				}
+			}
+			_, errLine := AppendDecode(nil, append([]byte{}, text[start:end]...))
+			okLine := errLine != nil
+			if verifCanary() {
+				okLine = errLine == nil
+			}
+			verifAssert(okLine, "E4.err.named-line-is-the-bad-one")
+			if start > 0 {
+				_, errBefore := AppendDecode(nil, append([]byte{}, text[:start-1]...))
+				verifAssert(errBefore == nil, "E4.err.lines-before-the-named-one-are-fine")
+			}
+		}
 		verifReach("E4.error")
 		return
 	}
